@@ -1063,6 +1063,7 @@ void llbuild::basic::spawnProcess(
     assert(readfds[0].fd == outputPipeParentEnd.unsafeDescriptor());
     assert(readfds[1].fd == controlPipeParentEnd.unsafeDescriptor());
 
+    bool pollFailed = false;
     while (poll(readfds, nfds, -1) == -1) {
         int err = errno;
 
@@ -1071,9 +1072,13 @@ void llbuild::basic::spawnProcess(
         } else {
           delegate.processHadError(ctx, handle,
             Twine("failed to poll (") + strerror(err) + ")"); 
-          return;
+          pollFailed = true;
+          break;
         }
     }
+    // Stop draining, but still reap the child and report its completion.
+    if (pollFailed)
+      break;
 
     for (int i = 0; i < nfds; i++) {
       if (readfds[i].revents & (POLLIN | POLLERR | POLLHUP)) {
